@@ -477,7 +477,12 @@ impl CertificateParams {
 			let bit_string = self.key_usages.iter().fold(0u16, |bit_string, key_usage| {
 				bit_string | key_usage.to_u16()
 			});
-			writer.write_bitvec_bytes(&bit_string.to_be_bytes(), KEY_USAGE_BITS);
+			// DER encodes a named bit list without its trailing zero bits, so the length
+			// of the BIT STRING is given by the last key usage that is actually set.
+			let bits = (u16::BITS - bit_string.trailing_zeros()) as usize;
+			debug_assert!(bits <= KEY_USAGE_BITS);
+			let bytes = bit_string.to_be_bytes();
+			writer.write_bitvec_bytes(&bytes[..(bits + 7) / 8], bits);
 		});
 	}
 
